@@ -17,8 +17,12 @@ solver's own formulas, exactly the clauses of the property:
                     the solver's pos_bhat/neg_bhat must agree with it.
   prior-fixpoint    if M0 satisfies all bounds (similar: v^T M0 v <= bounds_[0], dissimilar: >= bounds_[1]) then M == M0.
 
-Not this property's concern, noted only: ITML._fit writes 1e-9 into the CALLER's `bounds` array when it contains 0
-(finding F4a, property C17); explicit bounds are passed here as lists / fresh arrays and never contain 0.
+Not this property's concern, noted only: finding F4a (property C17) -- `_fit` wrote 1e-9 into the CALLER's `bounds` array when
+it contained 0; explicit bounds are passed here as fresh lists and never contain 0.
+Observed and NOT counted as a violation: the default bounds are the 5th/95th percentile of `pairwise_distances(X)` INCLUDING the
+zero self-distances, so with fewer than 20 distinct points bounds_[0] is 0 -> 1e-9; similar pairs are then forced to distance
+~1e-9, cond(M) exceeds 1/eps and the solver's matrix can lose definiteness by rounding (NonPSDError).  In exact arithmetic the
+property holds there; such instances are reported as 'numerically unresolvable' in `rule`, never as a pass or a violation.
 """
 import sys
 import time
@@ -26,7 +30,7 @@ import warnings
 
 import numpy as np
 
-from .common import repo, first_failure
+from .common import repo
 
 TAG_FIT = 'itml:_BaseITML._fit'
 PRIORS = ('identity', 'covariance', 'random', 'array')
